@@ -19,6 +19,7 @@ pub mod native {
         pub failed: Vec<&'static str>,
         pub covered: Vec<&'static str>,
         pub exhausted: bool,
+        pub notes: Vec<String>,
     }
     thread_local! { pub static ST: RefCell<State> = RefCell::new(State::default()); }
     pub struct AssumeFailed;
@@ -35,6 +36,7 @@ pub mod native {
     }
     pub fn fail(msg: &'static str) { ST.with(|s| s.borrow_mut().failed.push(msg)); }
     pub fn cov(msg: &'static str) { ST.with(|s| s.borrow_mut().covered.push(msg)); }
+    pub fn note(msg: String) { ST.with(|s| s.borrow_mut().notes.push(msg)); }
 }
 
 #[cfg(kani)]
